@@ -56,6 +56,9 @@ def load_units():
                 cur = None
                 sec = None
                 continue
+            if cur is not None and st.startswith('//@ ') and sec is None:
+                cur.attrs.update(_parse_attrs(st[4:]))
+                continue
             if cur is not None and st.startswith('//@') and not st.startswith('//@ '):
                 sec = st[3:].split()[0]
                 cur.sections[sec] = ''
